@@ -134,6 +134,9 @@ pub struct DirCase {
     pub vstores: Vec<bool>,
     pub stores: Vec<StoreDef>,
     pub indexes: Vec<IndexDef>,
+    /// how integer values are handed to the creator: 0 = immediate (`Value::Unsigned/Signed`), 1 = a per-entry mix of
+    /// immediate and deferred (`Value::UnsignedWord/SignedWord` of a constant), 2 = all deferred. Same values either way.
+    pub defer: u8,
 }
 
 #[derive(Clone, Debug)]
@@ -233,6 +236,7 @@ impl DirCase {
     pub fn to_json(&self) -> Value {
         json!({
             "seed": self.seed,
+            "defer": self.defer,
             "vstores": self.vstores.iter().map(|i| if *i {"indexed"} else {"plain"}).collect::<Vec<_>>(),
             "stores": self.stores.iter().map(|s| json!({
                 "n": s.n,
@@ -246,6 +250,7 @@ impl DirCase {
     pub fn from_json(v: &Value) -> DirCase {
         DirCase {
             seed: ju64(v, "seed"),
+            defer: v.get("defer").and_then(|x| x.as_u64()).unwrap_or(0) as u8,
             vstores: jarr(v, "vstores").iter().map(|x| x.as_str() == Some("indexed")).collect(),
             stores: jarr(v, "stores").iter().map(|s| StoreDef {
                 n: ju64(s, "n") as usize,
@@ -609,6 +614,8 @@ pub fn build(case: &DirCase) -> Built {
             for p in st.props_of(em.variant) {
                 let name = leak(&p.name);
                 let v = match &em.vals[&p.name] {
+                    Val::U(x) if deferred(case, si, e, &p.name) => jbk::Value::UnsignedWord((*x).into()),
+                    Val::S(x) if deferred(case, si, e, &p.name) => jbk::Value::SignedWord((*x).into()),
                     Val::U(x) => jbk::Value::Unsigned(*x),
                     Val::S(x) => jbk::Value::Signed(*x),
                     Val::A(a) => jbk::Value::Array(a.as_slice().into()),
@@ -626,6 +633,22 @@ pub fn build(case: &DirCase) -> Built {
         models.push(model);
     }
     Built { value_stores, entry_stores, handles, models }
+}
+
+/// Is the integer value of property `name` of entry `e` (insertion order) of store `si` handed over as a deferred word?
+pub fn deferred(case: &DirCase, si: usize, e: usize, name: &str) -> bool {
+    match case.defer {
+        0 => false,
+        2 => true,
+        _ => {
+            let mut h = case.seed ^ (si as u64).wrapping_mul(0x9E37_79B9_7F4A_7C15) ^ (e as u64).wrapping_mul(0xD6E8_FEB8_6659_FD93);
+            for b in name.bytes() {
+                h = (h ^ b as u64).wrapping_mul(0x100_0000_01B3);
+            }
+            h ^= h >> 29;
+            (h.wrapping_mul(0xBF58_476D_1CE4_E5B9) >> 40) & 1 == 1
+        }
+    }
 }
 
 pub struct Installed {
@@ -784,6 +807,8 @@ pub fn read_entry(
 
 pub fn observe(case: &DirCase, out: &mut CaseOut) {
     let mut fp = Fp::new();
+    fp.u(case.defer as u64);
+    out.obs.inc(&format!("integers_handed_over.{}", ["immediate", "mixed", "deferred"][case.defer.min(2) as usize]));
     let mut props = 0usize;
     let mut has_variant_or_ref = false;
     let mut entries = 0usize;
